@@ -3,6 +3,7 @@ package smgp30
 import (
 	"bytes"
 	"crypto/md5"
+	"encoding/hex"
 	"fmt"
 	"time"
 
@@ -98,4 +99,16 @@ func genAuthenticatorClient(clientId, secret string, timestamp uint32) ([]byte, 
 	}
 
 	return h.Sum(nil), nil
+}
+
+// msgIDOctets returns the octets of a MsgID for its 10-octet wire slot.
+// IDecode yields the MsgID as 20 hex digits; that form is converted back,
+// anything else is taken as the raw octets.
+func msgIDOctets(id string) string {
+	if len(id) == 20 {
+		if b, err := hex.DecodeString(id); err == nil {
+			return string(b)
+		}
+	}
+	return id
 }
